@@ -1,7 +1,7 @@
 (* PV.C12.Refuted — counter-models for the guards that still exist because the CODE fails (open
-   findings C12-DERIVATIVES-TEXT, C12-JSON-INTKEY, C12-HASH-DEPVAR-ORDER, C12-SREPR-DISTRIBUTES), and
+   findings C12-DERIVATIVES-TEXT, C12-JSON-INTKEY, C12-EQ-DOSING-ORDER, C12-SREPR-DISTRIBUTES), and
    regression Examples of the repaired behaviour for the findings fixed in /repo (C12-HASH-ORDER
-   ddb8814, C12-JSON-TUPLE cee2988, C12-CATEGORIES-MAPPING e582408, C12-GENERIC-READ 30e26dc, and
+   ddb8814, C12-HASH-DEPVAR-ORDER eb87ce1, C12-JSON-TUPLE cee2988, C12-CATEGORIES-MAPPING e582408, C12-GENERIC-READ 30e26dc, and
    C05-EQ-RAISES-NO-DOSE 876afb2): their former witnesses, now satisfying the property.
    All witnesses live over the [strG] engine (symbolic leaves are their srepr texts). *)
 From Coq Require Import QArith ZArith List Bool Arith String.
@@ -55,23 +55,21 @@ Proof.
   split; [vm_compute; reflexivity|]. intros. apply key_same_dict. vm_compute. reflexivity.
 Qed.
 
-(* ==== open: C12-HASH-DEPVAR-ORDER — the order of the dependent variables still leaks ==== *)
+(* ==== fixed: C12-HASH-DEPVAR-ORDER (eb87ce1): the order of the dependent variables no longer leaks ==== *)
 Definition M_yz : model strG :=
   mkModel strG "m" "" [] no_rvs [] [] no_di "PREDICTION" [("Symbol('Y')", 1%Z); ("Symbol('Z')", 2%Z)]
           [("Symbol('Y')", "Symbol('Y')"); ("Symbol('Z')", "Symbol('Z')")] None.
 Definition M_zy : model strG :=
   mkModel strG "m" "" [] no_rvs [] [] no_di "PREDICTION" [("Symbol('Z')", 2%Z); ("Symbol('Y')", 1%Z)]
           [("Symbol('Z')", "Symbol('Z')"); ("Symbol('Y')", "Symbol('Y')")] None.
-Theorem hash_depvar_order_refuted :
-  model_eq strG M_yz M_zy = true /\ same_order (OModel M_yz) (OModel M_zy) = false /\
+Example depvar_order_fixed :
+  model_eq strG M_yz M_zy = true /\
+  pyv_same (model_to_dict strG M_yz) (model_to_dict strG M_zy) = false /\
   forall (dumps : pyv -> string) (digest : Type) (H : string -> digest) (ds : string),
-    let d := model_encode strG (blank strG M_yz) in let d' := model_encode strG (blank strG M_zy) in
-    dumps_sep dumps d d' -> H_sep H (ds ++ dumps d) (ds ++ dumps d') ->
-    key strG dumps digest H ds M_yz <> key strG dumps digest H ds M_zy.
+    key strG dumps digest H ds M_yz = key strG dumps digest H ds M_zy.
 Proof.
   split; [vm_compute; reflexivity|]. split; [vm_compute; reflexivity|].
-  intros dumps digest H ds d d' DS HS. apply key_separates_model; try assumption.
-  apply pyv_same_false. vm_compute. reflexivity.
+  intros. apply key_same_dict. vm_compute. reflexivity.
 Qed.
 
 (* ==== fixed: C12-JSON-TUPLE (cee2988) ==== *)
